@@ -356,14 +356,14 @@ def exec_family(ctx, prop, extra=(), nopar=False, mc=("flat",), mc_thorough=(), 
 
 def check_C01(ctx):
     planner_family(ctx, "C01", qdeps=1)
-    exec_family(ctx, "C01", mc=("flat",), mc_thorough=("flat2", "batch", "deps"))
+    exec_family(ctx, "C01", extra=["--ppanic", 0.12], mc=("flat",), mc_thorough=("flat2", "batch", "deps"))
     exec_s2i(ctx, "C01", maxforce=1500 if ctx.quick() else 17000)
     async_stage(ctx, ["InvC01x"], 40 if ctx.quick() else 400, extra=["--ppanic", 0.3])
 
 
 def check_C02(ctx):
     planner_family(ctx, "C02")
-    exec_family(ctx, "C02", extra=["--pdep", 0.5], mc=("deps",), mc_thorough=("flat2",))
+    exec_family(ctx, "C02", extra=["--pdep", 0.5, "--ppanic", 0.2], mc=("deps",), mc_thorough=("flat2",))
     exec_s2i(ctx, "C02", maxforce=1500 if ctx.quick() else 17000)
     async_stage(ctx, ["InvC02x"], 50 if ctx.quick() else 500, extra=["--ppanic", 0.35, "--pdep", 0.5, "--nmax", 18])
 
@@ -373,7 +373,7 @@ def check_C03(ctx):
     # very many stages (barrier index far beyond 255) and barriers followed by rejected calls
     planner_i2s(ctx, TRACE_INVS["C03"], count=30 if ctx.quick() else 300, nmin=4, nmax=30, nres=6,
                 extra=["--chain", 2 if ctx.quick() else 10, "--pill", 0.12, "--pbarrier", 0.25], seed_off=7)
-    exec_family(ctx, "C03", extra=["--pbarrier", 0.2], mc=("deps",), mc_thorough=("flat2",))
+    exec_family(ctx, "C03", extra=["--pbarrier", 0.2, "--ppanic", 0.15], mc=("deps",), mc_thorough=("flat2",))
     exec_s2i(ctx, "C03", maxforce=1500 if ctx.quick() else 17000)
     async_stage(ctx, ["InvC03x"], 40 if ctx.quick() else 400, extra=["--ppanic", 0.3, "--pbarrier", 0.2])
 
@@ -385,7 +385,7 @@ def check_C04(ctx):
 
 
 def check_C05(ctx):
-    exec_family(ctx, "C05", nopar=True, mc=("flat", "batchseq"), mc_thorough=("flat2", "deps", "tl", "batch"))
+    exec_family(ctx, "C05", extra=["--ppanic", 0.15], nopar=True, mc=("flat", "batchseq"), mc_thorough=("flat2", "deps", "tl", "batch"))
     # running-time hints 1 and 3: the group-append path of the planner is part of the plans that are run
     # (only parallel mode is forced: the model lets dispatch_seq take the groups in any order, the code takes storage order)
     exec_s2i(ctx, "C05", res="{1}" if ctx.quick() else "{1,2}", times="{1,3}", modes='{"par"}', maxforce=2000 if ctx.quick() else 30000)
